@@ -1,5 +1,5 @@
 //! E-arena: the real arena through its public API, on verification base allocators whose blocks are
-//! concrete-size heap objects (DESIGN.md 2.2, 2.5).
+//! concrete-size heap objects (DESIGN.md 2.2, 2.5, 2.8).
 #![allow(clippy::all)]
 
 #[cfg(kani)]
@@ -14,4 +14,20 @@ mod claim;
 #[cfg(kani)]
 mod scope;
 #[cfg(kani)]
-mod probe;
+mod chunks;
+#[cfg(kani)]
+mod stats;
+#[cfg(kani)]
+mod align;
+#[cfg(kani)]
+mod entry;
+#[cfg(kani)]
+mod fail;
+#[cfg(kani)]
+mod c12x;
+#[cfg(kani)]
+mod mutvec;
+#[cfg(kani)]
+mod vecs;
+#[cfg(kani)]
+mod pool;
